@@ -368,10 +368,31 @@ var pKindName = map[string]string{
 	"repaint": "repaint", "focus": "focus", "blur": "blur",
 }
 
+// message values of unusual shapes (all of them perfectly good messages): typed nils and a message that is an error
+type (
+	sliceMsg []int
+	mapMsg   map[string]int
+	ptrMsg   struct{ n int }
+	funcMsg  func()
+	errMsg   struct{ N int }
+)
+
+func (e errMsg) Error() string { return "errMsg " + strconv.Itoa(e.N) }
+
 func pKeyOf(msg tea.Msg) string {
 	switch m := msg.(type) {
 	case nil:
 		return "nil"
+	case sliceMsg:
+		return "tn:slice"
+	case mapMsg:
+		return "tn:map"
+	case *ptrMsg:
+		return "tn:ptr"
+	case funcMsg:
+		return "tn:func"
+	case errMsg:
+		return "err:" + strconv.Itoa(m.N)
 	case userMsg:
 		return "u:" + strconv.Itoa(m.N)
 	case tea.KeyMsg:
@@ -560,6 +581,16 @@ func (h *harnessState) buildMsg(ms *pMsgSpec) tea.Msg {
 		return tea.Exec(fe, cb)()
 	case "windowsizemsg":
 		return tea.WindowSizeMsg{Width: ms.W, Height: ms.H}
+	case "tn-slice":
+		return sliceMsg(nil)
+	case "tn-map":
+		return mapMsg(nil)
+	case "tn-ptr":
+		return (*ptrMsg)(nil)
+	case "tn-func":
+		return funcMsg(nil)
+	case "errmsg":
+		return errMsg{ms.W}
 	}
 	h.addErr("unknown message spec b=%q", ms.B)
 	return nil
